@@ -334,7 +334,20 @@ fn handle_violation(
         }
         return;
     }
-    if level == "A" {
+    let is_hang = first.clause == "hang";
+    if is_hang {
+        // the watchdog measures wall-clock time: before a run counts as a hang it gets six times
+        // as long (60 s / 120 s). A real hang never ends; a run starved by an overloaded machine does.
+        worker::WATCHDOG_SCALE.store(6, std::sync::atomic::Ordering::SeqCst);
+        let again = if level == "A" { worker::run_forked(w, p) } else { levelb::run_level_b(w, p, None) };
+        worker::WATCHDOG_SCALE.store(1, std::sync::atomic::Ordering::SeqCst);
+        if !again.mismatches.iter().any(|m| m.clause == "hang") {
+            sum.violations -= 1;
+            *sum.probes.entry("watchdog_expired_but_run_finished_when_given_more_time".to_string()).or_default() += 1;
+            return;
+        }
+    }
+    if level == "A" && !is_hang {
         // level A is deterministic: a violation that a fresh child does not reproduce is a
         // fault of the harness (nondeterminism, overload), not of blockwatch
         let again = worker::run_forked(w, p);
@@ -360,7 +373,15 @@ fn handle_violation(
     } else {
         &|w, p| levelb::run_level_b(w, p, None)
     };
-    let (mw, mp, mr, steps) = shrink::minimise(w, p, &first.clause, runner, if level == "A" { 600 } else { 150 });
+    // (a hang is not minimised: every candidate would cost a full watchdog period)
+    let (mw, mp, mr, steps) = if is_hang {
+        (w.clone(), p.clone(), r.clone(), 0)
+    } else {
+        shrink::minimise(w, p, &first.clause, runner, if level == "A" { 600 } else { 150 })
+    };
+    if is_hang {
+        worker::WATCHDOG_SCALE.store(6, std::sync::atomic::Ordering::SeqCst);
+    }
     // confirm in a fresh child
     let mut reproduced = 0;
     let confirms = if level == "A" { 1 } else { 3 };
@@ -372,6 +393,7 @@ fn handle_violation(
             last = again;
         }
     }
+    worker::WATCHDOG_SCALE.store(1, std::sync::atomic::Ordering::SeqCst);
     let m = last
         .mismatches
         .iter()
